@@ -99,8 +99,8 @@ PROPS = {
         "run_files": ["Run/CaseConn.v"],
         "imports": ["Lib.Bytes", "Codec.Desc", "Conn.Types", "Conn.Prog", "Conn.Sem1", "Run.CaseConn"],
         "case_type": "conn_case",
-        "checkers": {"BASE": "check_c01", "C01": "check_c01", "C02": "check_c01"},
-        "harness": [{"bin": "conn", "env": {"VERIF_FAMILIES": "BASE,C01,C02"}}],
+        "checkers": {"BASE": "check_c01", "C01": "check_c01", "C02": "check_c01", "C10": "check_c01", "C03": "check_c01"},
+        "harness": [{"bin": "conn", "env": {"VERIF_FAMILIES": "BASE,C01,C02,C10,C03"}}],
         "shard": 40,
         "quick_scale": 1, "thorough_scale": 8, "search_factor": 4,
         "ties": ["conn binary: real Connection::listen on a scripted transport/client/adapters in a paused runtime vs Conn.Sem1.run1 (sends, calls, outcome, virtual ms)",
@@ -118,8 +118,8 @@ PROPS = {
         "run_files": ["Run/CaseConn.v", "Run/CaseCookie.v"],
         "imports": ["Lib.Bytes", "Codec.Desc", "Conn.Types", "Conn.Prog", "Conn.Sem1", "Run.CaseConn"],
         "case_type": "conn_case",
-        "checkers": {"BASE": "check_c02", "C02": "check_c02", "C01": "check_c02"},
-        "harness": [{"bin": "conn", "env": {"VERIF_FAMILIES": "BASE,C02,C01"}}, {"bin": "cookie", "case_type": "ckcase", "imports": ["Lib.Bytes", "Run.CaseCookie"], "checkers": {"SG": "check_cookie", "CK": "check_cookie"}, "shard": 20}],
+        "checkers": {"BASE": "check_c02", "C02": "check_c02", "C01": "check_c02", "C10": "check_c02"},
+        "harness": [{"bin": "conn", "env": {"VERIF_FAMILIES": "BASE,C02,C01,C10"}}, {"bin": "cookie", "case_type": "ckcase", "imports": ["Lib.Bytes", "Run.CaseCookie"], "checkers": {"SG": "check_cookie", "CK": "check_cookie"}, "shard": 20}],
         "shard": 40,
         "quick_scale": 1, "thorough_scale": 8, "search_factor": 4,
         "ties": ["conn binary: real Connection::listen on a scripted transport/client/adapters in a paused runtime vs Conn.Sem1.run1 (sends, calls, outcome, virtual ms)",
@@ -137,8 +137,8 @@ PROPS = {
         "run_files": ["Run/CaseConn.v", "Run/CaseIp.v", "Run/CaseLocale.v"],
         "imports": ["Lib.Bytes", "Codec.Desc", "Conn.Types", "Conn.Prog", "Conn.Sem1", "Run.CaseConn"],
         "case_type": "conn_case",
-        "checkers": {"BASE": "check_c03", "C03": "check_c03"},
-        "harness": [{"bin": "conn", "env": {"VERIF_FAMILIES": "BASE,C03"}}, {"bin": "iptext", "case_type": "ipcase", "imports": ["Lib.Bytes", "Lib.IpText", "Run.CaseIp"], "checkers": {"SHOW": "check_ip", "PARSE": "check_ip", "SOCK": "check_ip"}, "shard": 300}, {"bin": "locale", "case_type": "loccase", "imports": ["Lib.Bytes", "Adapters.Locale", "Run.CaseLocale"], "checkers": {"LOC": "check_locale"}, "shard": 60}],
+        "checkers": {"BASE": "check_c03", "C03": "check_c03", "C10": "check_c03", "C07": "check_c03"},
+        "harness": [{"bin": "conn", "env": {"VERIF_FAMILIES": "BASE,C03,C10,C07"}}, {"bin": "iptext", "case_type": "ipcase", "imports": ["Lib.Bytes", "Lib.IpText", "Run.CaseIp"], "checkers": {"SHOW": "check_ip", "PARSE": "check_ip", "SOCK": "check_ip"}, "shard": 300}, {"bin": "locale", "case_type": "loccase", "imports": ["Lib.Bytes", "Adapters.Locale", "Run.CaseLocale"], "checkers": {"LOC": "check_locale"}, "shard": 60}],
         "shard": 40,
         "quick_scale": 1, "thorough_scale": 8, "search_factor": 4,
         "ties": ["conn binary: real Connection::listen on a scripted transport/client/adapters in a paused runtime vs Conn.Sem1.run1 (sends, calls, outcome, virtual ms)",
@@ -156,8 +156,8 @@ PROPS = {
         "run_files": ["Run/CaseConn.v"],
         "imports": ["Lib.Bytes", "Codec.Desc", "Conn.Types", "Conn.Prog", "Conn.Sem1", "Run.CaseConn"],
         "case_type": "conn_case",
-        "checkers": {"BASE": "check_c06", "C06": "check_c06"},
-        "harness": [{"bin": "conn", "env": {"VERIF_FAMILIES": "BASE,C06"}}],
+        "checkers": {"BASE": "check_c06", "C06": "check_c06", "C01": "check_c06", "C02": "check_c06", "C07": "check_c06", "C10": "check_c06", "C03": "check_c06"},
+        "harness": [{"bin": "conn", "env": {"VERIF_FAMILIES": "BASE,C06,C01,C02,C07,C10,C03"}}],
         "shard": 40,
         "quick_scale": 1, "thorough_scale": 8, "search_factor": 4,
         "ties": ["conn binary: real Connection::listen on a scripted transport/client/adapters in a paused runtime vs Conn.Sem1.run1 (sends, calls, outcome, virtual ms)",
@@ -192,8 +192,8 @@ PROPS = {
         "run_files": ["Run/CaseConn.v", "Run/CaseCookie.v"],
         "imports": ["Lib.Bytes", "Codec.Desc", "Conn.Types", "Conn.Prog", "Conn.Sem1", "Run.CaseConn"],
         "case_type": "conn_case",
-        "checkers": {"BASE": "check_c10", "C10": "check_c10", "C02": "check_c10"},
-        "harness": [{"bin": "conn", "env": {"VERIF_FAMILIES": "BASE,C10,C02"}}, {"bin": "cookie", "case_type": "ckcase", "imports": ["Lib.Bytes", "Run.CaseCookie"], "checkers": {"SG": "check_cookie", "CK": "check_cookie"}, "shard": 20}],
+        "checkers": {"BASE": "check_c10", "C10": "check_c10", "C02": "check_c10", "C03": "check_c10"},
+        "harness": [{"bin": "conn", "env": {"VERIF_FAMILIES": "BASE,C10,C02,C03"}}, {"bin": "cookie", "case_type": "ckcase", "imports": ["Lib.Bytes", "Run.CaseCookie"], "checkers": {"SG": "check_cookie", "CK": "check_cookie"}, "shard": 20}],
         "shard": 40,
         "quick_scale": 1, "thorough_scale": 8, "search_factor": 4,
         "ties": ["conn binary: real Connection::listen on a scripted transport/client/adapters in a paused runtime vs the byte-level model Conn.Sem2.run2 on the delivered timed segments (sends, calls, outcome, virtual ms), with no class exempted",
@@ -237,8 +237,8 @@ PROPS = {
         "run_files": ["Run/CaseConn.v"],
         "imports": ["Lib.Bytes", "Codec.Desc", "Conn.Types", "Conn.Prog", "Conn.Sem1", "Run.CaseConn"],
         "case_type": "conn_case",
-        "checkers": {"BASE": "check_c07", "C07": "check_c07", "C03": "check_c07"},
-        "harness": [{"bin": "conn", "env": {"VERIF_FAMILIES": "BASE,C07,C03"}}],
+        "checkers": {"BASE": "check_c07", "C07": "check_c07", "C03": "check_c07", "C10": "check_c07"},
+        "harness": [{"bin": "conn", "env": {"VERIF_FAMILIES": "BASE,C07,C03,C10"}}],
         "shard": 40,
         "quick_scale": 1, "thorough_scale": 8, "search_factor": 4,
         "ties": ["conn binary: real Connection::listen on a scripted transport/client/adapters in a paused runtime vs Conn.Sem1.run1 (sends, calls, outcome, virtual ms)",
@@ -384,6 +384,8 @@ for _p in ("C01", "C02", "C03", "C04", "C06", "C07", "C08", "C10"):
     PROPS[_p]["ties"] = PROPS[_p].get("ties", []) + ["tools/skeleton.py: primitive sequence of Connection::listen / receive_packet / keep_alive / send_packet against the stored skeleton the model was transcribed from"]
 for _p in ("C01", "C02", "C03", "C04", "C06", "C07", "C08", "C10"):
     PROPS[_p]["max_skipped"] = 0      # no conn case may fall outside the model (e.g. because a packet impl became unparsable)
+for _p in ("C01", "C02", "C03", "C06", "C07"):
+    PROPS[_p]["ignore_families"] = ["C10P"]   # pair cases of the C10 family are judged by C10's own checker only
 for _p in ("C02", "C10"):
     PROPS[_p]["skeleton"].append("passage-protocol/src/cookie.rs")
 PROPS["C05"]["skeleton"] = ["passage-protocol/src/crypto/stream.rs"]
